@@ -138,6 +138,8 @@ type RotateResult struct {
 	Err      error
 	// Straddled: a stored validity instant lay between T0 and T1
 	Straddled bool
+	// ReinitOverEmptyRefused: see JudgeRotate
+	ReinitOverEmptyRefused bool
 }
 
 func near(a, b time.Time, tol time.Duration) bool {
@@ -177,6 +179,13 @@ func JudgeRotate(w *World, cfg RootConfig, reinit bool, state *structpb.Struct) 
 	}
 	if err != nil {
 		res.Outcome = Failed
+		if reinit && res.Before == nil {
+			// reinitialisation over EMPTY storage on a back end that reports the removal
+			// of an absent entry as an error (the file back end): the call fails closed.
+			// The statement speaks of successful calls; observed, not judged.
+			res.ReinitOverEmptyRefused = true
+			return res, RotViolation{}
+		}
 		return fail("unexpected-error", "rotation failed: %v", err)
 	}
 	res.After = ret
